@@ -401,12 +401,12 @@ Proof.
       split; cbn; [apply set_nth_Forall; assumption|exact HC'].
     + split; assumption.
   - (* read *)
-    destruct (opened m <=? i)%nat; cbn; [exact HM|].
+    destruct (negb (is_open m i)); cbn; [exact HM|].
     destruct (app_read (get m i) (conn m) n) as [[[[runs f] s] c]|] eqn:E; cbn; [|exact HM].
     destruct (app_read_inv _ _ _ _ _ _ _ (get_inv m i HM) HC E) as [HS' HC'].
     split; cbn; [apply set_nth_Forall; assumption|exact HC'].
   - (* stop_sending *)
-    destruct (opened m <=? i)%nat; cbn; [exact HM|].
+    destruct (negb (is_open m i)); cbn; [exact HM|].
     split; cbn; [apply set_nth_Forall; [assumption|apply app_stop_inv, get_inv, HM]|exact HC].
   - (* transmit *)
     destruct (ivs_transmit (csync (conn m)) (npn m)) as [v y] eqn:ET.
@@ -431,23 +431,23 @@ Definition exec (m : mstate) (ops : list op) : mstate := fold_left (fun m o => f
 Lemma exec_inv : forall ops m, MInv m -> MInv (exec m ops).
 Proof. induction ops as [|o r IH]; intros m H; cbn; [exact H|]. apply IH, step_inv, H. Qed.
 
-Lemma minit_inv ws wc : ws <= u32_max -> wc <= u32_max -> MInv (minit ws wc).
+Lemma minit_inv ws wl wc : ws <= u32_max -> wl <= u32_max -> wc <= u32_max -> MInv (minit ws wl wc).
 Proof.
-  intros H1 H2. split; cbn; [|apply CInv_new; exact H2].
-  unfold nstreams; cbn [repeat]. repeat (apply Forall_cons; [apply SInv_new; exact H1|]). apply Forall_nil.
+  intros H1 H3 H2. split; cbn; [|apply CInv_new; exact H2].
+  repeat (apply Forall_cons; [apply SInv_new; assumption|]). apply Forall_nil.
 Qed.
 
 (* advertised credit never exceeds consumed + window; the buffered span never exceeds the window *)
-Lemma advertised_credit_bound ws wc ops :
-  ws <= u32_max -> wc <= u32_max ->
-  let m := exec (minit ws wc) ops in
+Lemma advertised_credit_bound ws wl wc ops :
+  ws <= u32_max -> wl <= u32_max -> wc <= u32_max ->
+  let m := exec (minit ws wl wc) ops in
   latest (csync (conn m)) <= ccons (conn m) + cwin (conn m)
   /\ Forall (fun s =>
         latest (rsync s) <= rel s + swin s
         /\ (rst s = Receiving -> rel s = cons s /\ maxrecv s - cons s <= swin s
                                  /\ Forall (fun x => fst (fst x) < snd (fst x)) (segs s))) (strs m).
 Proof.
-  intros H1 H2 m. pose proof (exec_inv ops _ (minit_inv ws wc H1 H2)) as [HF HC]. fold m in HF, HC.
+  intros H1 H3 H2 m. pose proof (exec_inv ops _ (minit_inv ws wl wc H1 H3 H2)) as [HF HC]. fold m in HF, HC.
   split; [destruct HC as [HC _]; rewrite HC; apply sat_add_le|].
   eapply Forall_impl; [|exact HF]. intros s [K1 [KW K2]]. split; [rewrite K1; apply sat_add_le|].
   intro HR. destruct (K2 HR) as (A & B & C & D). split; [exact A|]. split; [|exact KW].
